@@ -5,7 +5,7 @@ from hypothesis import strategies as st
 
 from ..runner import Shard, Violation
 from ..tools import ITER_TOOLS, AGG_TOOLS, TOOLS
-from ..gen import base_case, features, K, Uids
+from ..gen import base_case, features, K, Uids, EXC_NAMES
 from ..core import expect_return, build, consumer_view, planned_name, run_sync
 from ..driver import Ctx, run, loop_mode, close_orphans, make_exc
 from ..values import sig, mats
@@ -36,7 +36,7 @@ ASSUMPTIONS = [
     "parameter-validation errors are not generated",
 ]
 
-ASYNC_CLOSEABLE = ("agen", "aclass", "aplain")
+ASYNC_CLOSEABLE = ("agen", "aclass", "aplain", "agenlike")
 ALL = [t for t in ITER_TOOLS if t != "tee"] + AGG_TOOLS
 
 
@@ -45,7 +45,7 @@ def cases(draw, name, tier):
     case = draw(base_case(name, max_len=4 if tier == "quick" else 6, max_src=3))
     if name != "iter_sentinel":
         for s in case["srcs"]:
-            s["fl"] = draw(st.sampled_from(["agen", "agen", "aclass", "aplain", "aclass_noclose"]))
+            s["fl"] = draw(st.sampled_from(["agen", "agen", "aclass", "aplain", "aclass_noclose", "agenlike"]))
             s["csusp"] = draw(st.booleans())
     if name == "chain_from_iterable":
         case["params"]["outer"]["fl"] = draw(st.sampled_from(["agen", "aclass", "list"]))
@@ -53,6 +53,7 @@ def cases(draw, name, tier):
     for spec in case["fns"].values():
         spec["fl"] = draw(st.sampled_from(["def", "async"]))
     case["mode"] = draw(st.sampled_from(["hooks", "bare"]))
+    case["exc"] = draw(st.sampled_from(EXC_NAMES))  # the type of the injected single faults
     return case
 
 
@@ -139,6 +140,9 @@ def run_one(c):
         bad_close = [e for e in log if e[0] == "close-raise" and e[2] is None]
         if bad_close:
             raise Violation(f"C04/{tool}/aclose-raises", f"{bad_close[0]} mode={c['mode']}", case=c)
+        meddling = [e for e in log if e[0] in ("asend", "athrow")]
+        if meddling:
+            raise Violation(f"C04/{tool}/library-sends-or-throws-into-a-source", f"{meddling[:2]}", case=c)
         leaked = [s.name for s in owed_sources(b, c) if not s.released]
         if leaked:
             what = "fault" if c.get("fault_at") else c["action"]
@@ -172,7 +176,7 @@ def expand(case):
             continue
         if res == "outer" and base["params"]["outer"].get("fl") == "list":
             continue
-        c = with_fault(base, res, at, "Fault")
+        c = with_fault(base, res, at, base.get("exc", "Fault"))
         c.update(j=full, action="none", single=True)
         subs.append(c)
     return subs
